@@ -44,7 +44,10 @@ AlphaT == AlphaQ
         MTop("get", "grp", "data", "none"), MTop("set", "grp", "tags", "none"), MTop("set", "me", "desc", "lvl"),
         MTop("del", "grp", "topic", "none"), MTop("note", "me", "kp", "none"), MTop("note", "grp", "read", "valid")}
 AlphaSet == CASE AlphaName = "q" -> AlphaQ [] AlphaName = "t" -> AlphaT [] OTHER -> AllMsgs
-Alphabet == SetToSeq(AlphaSet)   \* messages are addressed by index in the printed histories
+\* Messages are addressed by index in the printed histories.  TLC re-evaluates a definition that depends on a declared
+\* CONSTANT at every use; the sequence is therefore computed once (an ASSUME sets the register for every worker).
+ASSUME TLCSet(7, SetToSeq(AlphaSet))
+Alphabet == TLCGet(7)
 
 VARIABLES st, hist, viol
 vars == <<st, hist, viol>>
@@ -69,7 +72,7 @@ Emit == EmitTag = "" \/ PrintT(<<EmitTag, hist>>)
 EmitFull == EmitTag = "" \/ Len(hist) < MaxLen \/ PrintT(<<EmitTag, hist>>)
 
 \* the alphabet in index order, printed once so that the recorder can resolve the indices
-EmitAlphabet == PrintT(<<"ALPHABET", Alphabet>>)
+ASSUME EmitTag = "" \/ PrintT(<<"ALPHABET", Alphabet>>)
 \* sanity of the model itself: the state stays within its type
 TypeOK == /\ st.ver \in {"0", "A", "B"} /\ st.uid \in {"", "alice", "root", "new"} /\ st.lvl \in {"", "auth", "root"}
           /\ (st.uid = "") = (st.lvl = "")
